@@ -1,5 +1,6 @@
 """C03 — validate / safeParse / parse agree; parsed data is a faithful projection of the input."""
 import collections
+import re
 from lib import common, rstage
 from lib.vals import *
 
@@ -78,6 +79,11 @@ def tree_tags(c):
                 tags.add("ProtoKey")
             if n[0] == "Object" and any(k == "length" for k, _ in n[1]):
                 tags.add("LengthKey")
+            if n[0] == "Disc":
+                inline = [(k, m) for k, m in n[4] if m[0] != "Ref"]
+                san = [re.sub(r"[^a-zA-Z0-9]+", " ", k).strip().title().replace(" ", "") or "Variant" for k, _ in inline]
+                if len(set(san)) < len(san): tags.add("DiscKeysCollide")
+                if len({repr(m) for _, m in inline}) < len(inline): tags.add("DiscSharedVariant")
     return tags
 
 
